@@ -160,11 +160,16 @@ class Program:
                 out[st.target.id] = st.value
         return out
 
+    def is_namedtuple(self, cls):
+        """class X(NamedTuple): fields are the annotated names, instances are tuples of them (in order)"""
+        c = self.classes.get(cls)
+        return c is not None and any(ast.unparse(b).split(".")[-1] == "NamedTuple" for b in c.bases)
+
     def dataclass_fields(self, cls):
         c = self.classes.get(cls)
         if c is None:
             return None
-        if not any(ast.unparse(d).startswith("dataclass") for d in c.decorator_list):
+        if not any(ast.unparse(d).startswith("dataclass") for d in c.decorator_list) and not self.is_namedtuple(cls):
             return None
         return [st.target.id for st in c.body if isinstance(st, ast.AnnAssign) and isinstance(st.target, ast.Name)]
 
